@@ -349,6 +349,18 @@ impl Property for C05 {
         }
         let n = r.range(3, 12) as usize;
         let mut ops = Vec::new();
+        // vary the data rates the windows are opened at: uplink data rate (RX1 follows it) and,
+        // through an authentic RXParamSetupReq, RX1DROffset and the RX2 data rate
+        if r.chance(1, 2) {
+            ops.push(Op::SetDr(*r.pick(&rr::uplink_drs(cfg.region))));
+        }
+        if r.chance(1, 3) {
+            let defined: Vec<u8> = rr::datarates(cfg.region).iter().enumerate().filter(|(i, d)| d.is_some() && !(cfg.region == RegionId::EU868 && *i == 6)).map(|(i, _)| i as u8).collect();
+            let m = MacSpec::RxParamSetup { rx1off: r.below(rr::max_rx1_dr_offset(cfg.region) as u64 + 1) as u8, rx2dr: *r.pick(&defined), freq: freq_in_band(&mut r, cfg.region) };
+            let mut t = Txn::default();
+            t.rx1.push(FrameSpec::Data(frame_with_macs(vec![m], false)));
+            ops.push(Op::Send { port: 1, len: 1, confirmed: false, txn: t });
+        }
         for _ in 0..n {
             if cfg.frontend == Frontend::AsyncC && r.chance(1, 4) && !ops.is_empty() {
                 let k = r.range(1, 4);
